@@ -1,6 +1,7 @@
 package main
 
 import (
+	"bytes"
 	"crypto"
 	"crypto/ecdsa"
 	"crypto/elliptic"
@@ -467,6 +468,101 @@ func runC16(c *Collector, r *Rng, thorough bool) {
 			}
 			if e1 != nil || e2 != nil {
 				c.Fail("C16/verify-verdict", fmt.Sprintf("a valid fixed-width signature whose s has %d significant octets (r: %d) is refused: Verify=%v VerifyDigest=%v", sl, len(rr.Bytes()), e1, e2), rep)
+			}
+		}
+	}
+	c16CurveValuesAndResidues(c, r)
+}
+
+// wrappedCurve: what key stores hand out - a value that implements elliptic.Curve by delegating to the standard curve
+// but is not the crypto/elliptic singleton
+type wrappedCurve struct{ elliptic.Curve }
+
+// c16CurveValuesAndResidues: (1) the width of r and s is a property of the curve order, not of the Go value that holds
+// the curve: crypto.Signers whose public key names the curve through *elliptic.CurveParams or through a wrapper value
+// give signatures of exactly 2n octets, r then s. (2) r and s are taken as written: a valid signature whose r or s
+// was replaced by another representative of the same residue modulo the group order (r+N, s+N, where that fits in the
+// field width - always on P-521) is another byte string and is refused, as the standard library refuses it.
+func c16CurveValuesAndResidues(c *Collector, r *Rng) {
+	msg := []byte("to be signed")
+	for _, ci := range curves {
+		key, err := ecdsa.GenerateKey(ci.curve, r)
+		if err != nil {
+			continue
+		}
+		order := ci.curve.Params().N
+		nm1 := new(big.Int).Sub(order, big.NewInt(1))
+		for cname, cv := range map[string]elliptic.Curve{"*elliptic.CurveParams": ci.curve.Params(), "wrapper value": wrappedCurve{ci.curve}} {
+			pub := &ecdsa.PublicKey{Curve: cv, X: key.X, Y: key.Y}
+			for _, p := range [][2]*big.Int{{big.NewInt(1), big.NewInt(1)}, {nm1, nm1}, {big.NewInt(1), nm1}, {new(big.Int).Rsh(nm1, 16), nm1}, {nm1, big.NewInt(0x1234)}, {new(big.Int).Rsh(nm1, 8), new(big.Int).Rsh(nm1, 9)}} {
+				var sg cose.Signer
+				var nerr error
+				if pn, _ := protect(func() { sg, nerr = cose.NewSigner(ci.alg, &stubSigner{pub: pub, out: derRS(p[0], p[1])}) }); pn || nerr != nil {
+					continue
+				}
+				var sig []byte
+				var serr error
+				rep := map[string]any{"curve": ci.name, "curve_value": cname, "r": p[0].String(), "s": p[1].String()}
+				c.Eval("sign/curve-value/"+ci.name, cname+p[0].String()+p[1].String(), true)
+				if pn, v := protect(func() { sig, serr = sg.Sign(r, msg) }); pn {
+					c.Fail("C16/panic", fmt.Sprint("Sign panicked: ", v), rep)
+					continue
+				}
+				if serr != nil {
+					c.Fail("C16/sign-refused", "in-range (r,s) refused when the key's curve is held in another Go value: "+serr.Error(), rep)
+					continue
+				}
+				want := append(p[0].FillBytes(make([]byte, ci.n)), p[1].FillBytes(make([]byte, ci.n))...)
+				if !bytes.Equal(sig, want) {
+					rep["sig"] = hx(sig)
+					c.Fail("C16/sign-form", fmt.Sprintf("signature of %d octets is not r||s at %d octets each when the key's curve is held in a %s", len(sig), ci.n, cname), rep)
+				}
+			}
+		}
+		// residues
+		vf, err := cose.NewVerifier(ci.alg, &key.PublicKey)
+		if err != nil {
+			continue
+		}
+		digest := digestOf(ci.hash, msg)
+		lim := new(big.Int).Lsh(big.NewInt(1), uint(8*ci.n))
+		tried := 0
+		for attempt := 0; attempt < 64 && tried < 8; attempt++ {
+			rr, ss, err := ecdsa.Sign(r, key, digest)
+			if err != nil {
+				break
+			}
+			good := append(rr.FillBytes(make([]byte, ci.n)), ss.FillBytes(make([]byte, ci.n))...)
+			if vf.Verify(msg, good) != nil {
+				c.Fail("C16/verify-verdict", "a valid fixed-width signature is refused", map[string]any{"curve": ci.name, "sig": hx(good)})
+				break
+			}
+			for _, which := range []string{"r", "s", "both"} {
+				r2, s2 := new(big.Int).Set(rr), new(big.Int).Set(ss)
+				if which != "s" {
+					r2.Add(r2, order)
+				}
+				if which != "r" {
+					s2.Add(s2, order)
+				}
+				if r2.Cmp(lim) >= 0 || s2.Cmp(lim) >= 0 {
+					continue
+				}
+				tried++
+				sig := append(r2.FillBytes(make([]byte, ci.n)), s2.FillBytes(make([]byte, ci.n))...)
+				rep := map[string]any{"curve": ci.name, "sig": hx(sig), "valid_sig": hx(good), "replaced": which}
+				c.Eval("verify/other-residue/"+ci.name, which+fmt.Sprint(attempt), true)
+				if ecdsa.Verify(&key.PublicKey, digest, r2, s2) {
+					continue // the standard library decides
+				}
+				var e1, e2 error
+				if pn, v := protect(func() { e1 = vf.Verify(msg, sig); e2 = vf.(cose.DigestVerifier).VerifyDigest(digest, sig) }); pn {
+					c.Fail("C16/panic", fmt.Sprint("Verify panicked: ", v), rep)
+					continue
+				}
+				if e1 == nil || e2 == nil {
+					c.Fail("C16/verify-verdict", fmt.Sprintf("a signature whose %s was replaced by itself plus the group order (another byte string, out of range) is accepted: Verify=%v VerifyDigest=%v", which, e1, e2), rep)
+				}
 			}
 		}
 	}
